@@ -61,8 +61,10 @@ def _eng(profile, quick, thorough):
 
 PROPS = {
     "C01": {
-        "engines": [_eng("match", 25000, 800000), _eng("", 10000, 300000)],
-        "nontrivial": _eng_nontrivial, "rule": _ENG_RULE + "Profile `match`: more chains, keyed/whole/count targets, exclusions, negation.",
+        "engines": [_eng("match", 25000, 800000), _eng("", 10000, 300000), _eng("cache", 8000, 250000)],
+        "nontrivial": _eng_nontrivial, "rule": _ENG_RULE + "Profile `match`: more chains, keyed/whole/count targets, exclusions, negation. "
+                "Profile `cache`: rules of one phase sharing transformation prefixes (also with a failing step, t:hexDecode on non-hex text), "
+                "so the value an operator is given may come from the per-phase cache.",
         "modelled": _ENG_MODELLED, "assumptions": _ENG_ASSUME,
         "open_statements": ["F-C01-2 (open finding): regex keys over case-folded collections are not matched "
                             "case-insensitively; the C01 monitor compares the outcome with the specification reading of "
